@@ -168,6 +168,9 @@ class State:
         s.pc = list(self.pc)
         s.alloc = self.alloc
         s.notes = list(self.notes)
+        for extra in ("heap_epoch", "havocked", "raise_site"):
+            if hasattr(self, extra):
+                setattr(s, extra, getattr(self, extra))
         return s
 
     # ---- heap arrays -------------------------------------------------------------------------
